@@ -46,6 +46,12 @@ thread_local! {
 
 pub struct DynRoot;
 
+/// run `f` with `ty` as the type description `DynRoot` stands for (used by the schema suite)
+pub fn with_type<R>(ty: &Value, f: impl FnOnce() -> R) -> R {
+    CURRENT_TY.with(|t| *t.borrow_mut() = ty.clone());
+    f()
+}
+
 impl<'de> Deserialize<'de> for DynRoot {
     fn deserialize<D: Deserializer<'de>>(d: D) -> Result<Self, D::Error> {
         let ty = CURRENT_TY.with(|t| t.borrow().clone());
@@ -1054,7 +1060,7 @@ fn run_from_type(ty: &Value, opts: &Value) -> Value {
     })
 }
 
-struct SampleRows<'a>(&'a [Value]);
+pub(crate) struct SampleRows<'a>(pub(crate) &'a [Value]);
 impl Serialize for SampleRows<'_> {
     fn serialize<S: serde::Serializer>(&self, s: S) -> Result<S::Ok, S::Error> {
         let vals: Vec<SVal> = self.0.iter().map(SVal).collect();
